@@ -195,13 +195,30 @@ def worker(task):
             res = new_result()
             with open(task['path']) as f:
                 rec = json.load(f)
-            out = safe_evaluate(mod, rec['case'])
+            want = rec['case'].get('_env')
+            if want and any(os.environ.get(k) != v for k, v in want.items()):
+                # the recorded failure needs another interpreter mode (e.g. NUMBA_BOUNDSCHECK=1)
+                import subprocess
+                env = dict(os.environ)
+                env.update(want)
+                p = subprocess.run([sys.executable, '-m', 'vpbt.cli', task['prop'], '--replay', task['path']],
+                                   env=env, cwd=VERIF, capture_output=True, text=True)
+                if p.returncode == 1:
+                    out = outcome(failures=[(rec['bucket'], rec.get('detail', '') + ' [replayed in sub-interpreter]')], nontrivial=True)
+                elif p.returncode == 0:
+                    out = outcome(labels=['regress-ok'], nontrivial=True)
+                else:
+                    raise RuntimeError(f'replay sub-interpreter failed: {p.stdout[-500:]} {p.stderr[-500:]}')
+            else:
+                out = safe_evaluate(mod, rec['case'])
             add_outcome(res, rec['case'], out)
             res['extra']['replayed'] = [os.path.relpath(task['path'], VERIF)]
         elif kind == 'enum':
             res = mod.run_enum_task(task['task'])
         elif kind == 'hyp':
             res = run_hyp_shard(mod, task)
+        elif kind == 'hyp_sub':
+            res = run_sub_shard(task)
         elif kind == 'stateful':
             res = run_stateful_shard(mod, task)
         else:
@@ -214,6 +231,26 @@ def worker(task):
         res = new_result()
         res['error'] = f'task {task.get("kind")} {task.get("task", task.get("shard"))}:\n' + traceback.format_exc()
         return res
+
+
+def run_sub_shard(task):
+    """Hypothesis shard in a fresh interpreter with extra environment (e.g. NUMBA_BOUNDSCHECK=1, which numba reads at
+    import time). Failures found there carry case['_env'] so that replay re-creates the interpreter mode."""
+    import subprocess
+    env = dict(os.environ)
+    env.update(task['env'])
+    t = dict(task, kind='hyp')
+    p = subprocess.run([sys.executable, '-m', 'vpbt.subshard'], input=json.dumps(t), capture_output=True, text=True,
+                       env=env, cwd=VERIF)
+    if p.returncode != 0:
+        raise RuntimeError(f'sub-shard failed rc={p.returncode}: {p.stderr[-2000:]}')
+    res = json.loads(p.stdout[p.stdout.index('@@RESULT@@') + 10:])
+    for f in res['failures']:
+        f['case'] = dict(f['case'], _env=task['env'])
+        f['bucket'] = f['bucket'] + ['env:' + ','.join(f'{k}={v}' for k, v in sorted(task['env'].items()))]
+    res['labels'] = {('sub:' + k): v for k, v in res['labels'].items()}
+    res['extra'] = {'subrun_' + '_'.join(f'{k}={v}' for k, v in sorted(task['env'].items())): res['evaluations']}
+    return res
 
 
 def _hyp_settings(examples, shrink=False):
@@ -331,6 +368,9 @@ def run(prop, tier, seed):
         for i in range(nsh):
             tasks.append({'kind': 'hyp', 'prop': prop, 'tier': tier, 'shard': i, 'examples': per,
                           'seed': derive_seed(seed, prop, i), 'shrink_cap': budget.get('shrink_cap', 45)})
+    for j, sub in enumerate(budget.get('sub_shards', [])):
+        tasks.append({'kind': 'hyp_sub', 'prop': prop, 'tier': tier, 'shard': 500 + j, 'examples': sub['examples'],
+                      'seed': derive_seed(seed, prop, 500 + j), 'env': sub['env'], 'shrink_cap': 30})
     nst = budget.get('stateful_shards', 0)
     if nst and hasattr(mod, 'machine'):
         per = max(1, budget['stateful_examples'] // nst)
@@ -445,7 +485,7 @@ def run(prop, tier, seed):
         'samples': (nt_samples + samples)[:6] or [{'note': 'no sample recorded'}],
         'rejected': int(rejected),
         'labels': dict(sorted(labels.items(), key=lambda kv: -kv[1])[:60]),
-        'tasks': {k: sum(1 for r in results if r.get('kind') == k) for k in ('replay', 'enum', 'hyp', 'stateful')},
+        'tasks': {k: sum(1 for r in results if r.get('kind') == k) for k in ('replay', 'enum', 'hyp', 'hyp_sub', 'stateful')},
         'buckets_seen': ['/'.join(b) for b in by_bucket],
         'known_findings_hit': dict(known_hits),
         'exhaustive': bool(getattr(mod, 'EXHAUSTIVE', {}).get(tier, False)),
@@ -471,10 +511,16 @@ def run(prop, tier, seed):
 
 
 def replay(prop, path):
-    setup_repo_path()
-    mod = load(prop)
     with open(path) as fh:
         rec = json.load(fh)
+    want = rec['case'].get('_env') if isinstance(rec.get('case'), dict) else None
+    if want and any(os.environ.get(k) != v for k, v in want.items()):
+        import subprocess
+        env = dict(os.environ)
+        env.update(want)
+        return subprocess.run([sys.executable, '-m', 'vpbt.cli', prop, '--replay', path], env=env, cwd=VERIF).returncode
+    setup_repo_path()
+    mod = load(prop)
     out = safe_evaluate(mod, rec['case'])
     findings = Findings(prop)
     bad = [(b, d) for b, d in out['failures'] if not findings.match(b, rec['case'], mod)]
